@@ -392,7 +392,17 @@ def classify_vmapgf(case):
 
             tr4, w4, _ = impl(seed(vg.regenerate), env.key(case["key"], 2), tr, sel(()), *jargs)
             fails += check_trace(tr4, "regenerate")
-            if not gfi.close(float(np.asarray(w4)), 0.0, 50.0):
+            # the weight clause of regenerate is claimed for moves that do not switch a Cond (C04): compare the predicate traces
+            from harness.props.c03 import preds_of
+
+            ch_old, ch_new = gfi.to_np(ch), gfi.to_np(tr4.get_choices())
+            switched = False
+            for i in range(n):
+                lo = jax.tree_util.tree_map(lambda x: np.asarray(x)[i], ch_old)
+                ln = jax.tree_util.tree_map(lambda x: np.asarray(x)[i], ch_new)
+                if preds_of(ref, lane_rargs(i), {}, lo) != preds_of(ref, lane_rargs(i), {}, ln):
+                    switched = True
+            if not switched and not gfi.close(float(np.asarray(w4)), 0.0, 50.0):
                 fails.append((f"regenerate_weight{F}", f"regenerate of everything has weight {float(np.asarray(w4))}"))
             f4 = refmodel.flat_leaves(gfi.to_np(tr4.get_choices()))
             f1 = refmodel.flat_leaves(gfi.to_np(ch))
